@@ -560,7 +560,16 @@ pub fn gen_p_family(prop: &str, seed: u64, pf: &PProfile) -> Plan {
             0..=5 => rng.range(1, 70) as usize,
             6 => 1,
             7 => 2,
-            _ => *rng.pick(&[128usize, 1000, 4096, 100_000]),
+            8 => *rng.pick(&[128usize, 1000, 4096, 100_000]),
+            // now and then the sizes the README suggests for a real deployment ("10x the items":
+            // millions of counters): rows of megabytes, masks of more than 21 bits
+            _ => {
+                if rng.chance(1, 4) {
+                    *rng.pick(&[(1usize << 21) + 1, 3 << 20, 10_000_000])
+                } else {
+                    *rng.pick(&[128usize, 1000, 4096, 100_000])
+                }
+            }
         };
         cfg.buffer_items = *rng.pick(&[0usize, 1, 1, 2, 3, 4, 8, 64]);
         cfg.cleanup_ms = *rng.pick(&[1u64, 10, 100, 500, 2000, 5000]);
@@ -619,7 +628,8 @@ pub fn gen_p_family(prop: &str, seed: u64, pf: &PProfile) -> Plan {
                         script.push(Op::WhileHolding { what: 1 + rng.below(2) as u8, v: (cfg.max_cost / 2 + rng.range(1, 60) as i64).max(1) });
                     } else if pf.hold_other_pct > 0 && matches!(cfg.keys, KeyMode::Transparent) && rng.chance(pf.hold_other_pct, 100) {
                         // (shard = index % 256, index = key for transparent keys)
-                        let others: Vec<u64> = universe.iter().copied().filter(|o| o % 256 != k % 256).collect();
+                        // (and only upwards: the clients keep a lock order among themselves)
+                        let others: Vec<u64> = universe.iter().copied().filter(|o| o % 256 > k % 256).collect();
                         if !others.is_empty() {
                             let k2 = *rng.pick(&others);
                             script.push(Op::WhileHolding { what: 3 + rng.below(2) as u8, v: k2 as i64 });
